@@ -389,7 +389,7 @@ func (o evOp) element() (bulking.BulkElement, bool) {
 			Data: bulking.TransactionRequest{Postings: o.Post, Reference: o.Ref, Metadata: toMD(o.Meta), AccountMetadata: o.accMeta(), Force: o.Force}}, true
 	case "revert":
 		return bulking.BulkElement{Action: bulking.ActionRevertTransaction, IdempotencyKey: o.IK,
-			Data: bulking.RevertTransactionRequest{ID: o.TxID, Force: o.Force, Metadata: metadata.Metadata{}}}, true
+			Data: bulking.RevertTransactionRequest{ID: o.TxID, Force: o.Force, AtEffectiveDate: o.AtEffectiveDate, Metadata: metadata.Metadata{}}}, true
 	case "saveTxMeta":
 		return bulking.BulkElement{Action: bulking.ActionAddMetadata, IdempotencyKey: o.IK,
 			Data: bulking.AddMetadataRequest{TargetType: ledger.MetaTargetTypeTransaction, TargetID: raw(o.TxID), Metadata: toMD(o.Meta)}}, true
